@@ -306,6 +306,11 @@ KERNELS = [
          ext_fn={"self._append_archive": ("appendFn", ["archive", "worse_g"], ["Arr", "Arr"]),
                  "self._update_u_F": ("updateFFn", ["u_F", "S_F"], ["Int", "Arr"], "Int"),
                  "self._update_u_CR": ("updateCRFn", ["u_CR", "S_CR", "df"], ["Int", "Arr", "Arr"], "Int")}),
+    dict(name="SHAGA_bookkeeping", file="optimizers/_shaga.py", cls="SHAGA", func="_get_new_population", params=[], ret="Mat",
+         start_at="mask = ", inputs={"mutant_cr_b_g": "Arr", "mutant_cr_ph": "Arr", "mutant_cr_fit": "Arr"},
+         self_arrays=["_population_g_i", "_population_ph_i", "_fitness_i", "_MR", "_CR", "_H_MR", "_H_CR"], self_ints=["_k"],
+         self_attrs={"_H_size": ("H_size", "Int")},
+         ext_fn={"self._update_u": ("updateFn", ["u", "S", "df"], ["Int", "Arr", "Arr"], "Int")}),
     dict(name="tournament_selection", file="utils/selections.py", func="tournament_selection",
          params=[("fitness", "Arr"), ("rank", "Arr"), ("tour_size", "Int"), ("quantity", "Int")], ret="Arr",
          ext_fn={"random_sample": ("sampler", ["range_size", "quantity", "replace"])}),
